@@ -106,13 +106,34 @@ func (x *yyLex) dequeue() int {
 	return token
 }
 
+// Read a physical line
+//
+// The line terminators "\n", "\r\n" and "\r" are all returned as "\n"
+func (x *yyLex) readLine() (string, error) {
+	var line []byte
+	for {
+		c, err := x.reader.ReadByte()
+		if err != nil {
+			return string(line), err
+		}
+		if c == '\r' {
+			// Read the "\n" of a "\r\n" too
+			if next, err := x.reader.Peek(1); err == nil && next[0] == '\n' {
+				_, _ = x.reader.ReadByte()
+			}
+			c = '\n'
+		}
+		line = append(line, c)
+		if c == '\n' {
+			return string(line), nil
+		}
+	}
+}
+
 // Refill line
 func (x *yyLex) refill() {
 	var err error
-	x.line, err = x.reader.ReadString('\n')
-	if strings.HasSuffix(x.line, "\r\n") {
-		x.line = x.line[:len(x.line)-2] + "\n"
-	}
+	x.line, err = x.readLine()
 	if yyDebug >= 2 {
 		fmt.Printf("line = %q, err = %v\n", x.line, err)
 	}
